@@ -59,7 +59,9 @@ func monitor(cs caseSpec, o obs) *cf.Monitor {
 		ji, si, fi, nCommit := 0, 0, 0, 0
 		commitOK := false
 		for _, x := range seg {
-			if returned && x.K != "leave" {
+			// "err"/"perr" are logged by the APPLICATION's reader of group.Errors() when it takes the error out of the
+			// channel; the error was handed over during the session, when the reader gets to log it is its own scheduling
+			if returned && x.K != "leave" && x.K != "err" && x.K != "perr" {
 				return fail("hooks:event-after-consume-returned", "call %d: %s after Consume returned", ci, x.K)
 			}
 			switch x.K {
